@@ -56,6 +56,9 @@ def run(ctx):
     c17.s17_1(ctx, P)
     c17.s17_3(ctx, P)
     c17.partial_emitters(ctx, P)
+    c17.running_offset_emitters(ctx, P)
+    c03.seipdv1(ctx, P)
+    c03.seipdv2(ctx, P)
     c12.seipdv2(ctx, P)
     c12.mdc(ctx, P)
     c03.chunk_nonce(ctx, P)
